@@ -1536,3 +1536,138 @@ class NumericArrayEndToEnd(EnumContract):
 
 
 REGISTRY.append(NumericArrayEndToEnd())
+
+
+# =======================================================================================
+# C13, overlapping multiple-response columns: CAT x MR responses that carry the overlap
+# measures, through the public API
+
+
+def gen_overlap_case(rnd):
+    rd = gen_dim(rnd, "CAT", "a")
+    rd.pop("doc_order", None)
+    cd = dict(kind="MR", name="b", n=rnd.choice([2, 3]))
+    rs = gen_respondents(rnd, [rd, cd], rnd.choice([8, 15, 30]), False)
+    tr = {}
+    t = {}
+    if rnd.random() < 0.4:
+        t["order"] = {"type": "explicit", "element_ids": rnd.sample(list(range(1, cd["n"] + 1)), cd["n"])}
+    if rnd.random() < 0.25:
+        t["elements"] = {str(rnd.randrange(1, cd["n"] + 1)): {"hide": True}}
+    if t:
+        tr["columns_dimension"] = t
+    pw = {}
+    alpha = rnd.choice([None, 0.05, [0.3, 0.05], 0.6])
+    if alpha is not None:
+        pw["alpha"] = alpha
+    r = rnd.random()
+    if r < 0.45:
+        pw["only_larger"] = False
+    if pw:
+        tr["pairwise_indices"] = pw
+    return dict(dims=[rd, cd], rs=rs, weighted=False, transforms=tr)
+
+
+def overlap_response(dims, rs):
+    rd, cd = dims
+    resp = tabulate(dims, rs, False)
+    nr, k = len(rd["cats"]), cd["n"]
+    ov = [0] * (nr * k * 3 * k)
+    vo = [0] * (nr * k * 3 * k)
+    for r in rs:
+        c, items = r["a"]
+        for a in range(k):
+            for b in range(k):
+                flat = ((c * k + a) * 3 + items[a]) * k + b
+                if items[b] == SEL:
+                    ov[flat] += 1
+                if items[b] != MIS:
+                    vo[flat] += 1
+    meta = {"type": {"class": "numeric", "subvariables": ["%04d" % i for i in range(k)]}, "references": {}}
+    resp["result"]["measures"]["overlap"] = {"data": ov, "n_missing": 0, "metadata": meta}
+    resp["result"]["measures"]["valid_overlap"] = {"data": vo, "n_missing": 0, "metadata": meta}
+    return resp
+
+
+class OverlapPairwiseEndToEnd(EnumContract):
+    name = "e2e:overlap-corrected pairwise tests and index sets (CAT x MR with overlap measures, public API)"
+    props = ("C13", "C05")
+    bound = ("CAT (<= 4 categories, missing anywhere) x MR (2-3 items) unweighted responses with overlap / valid_overlap "
+             "measures tabulated from <= 30 respondents, optional explicit order / hidden item, alpha and only_larger "
+             "variants; seeded sample")
+    clauses = ("overlap-t", "overlap-p-other-items", "overlap-p-self", "overlap-indices", "overlap-never-self", "overlap-exception")
+
+    def cases(self, cfg, seed, thorough):
+        rnd = random.Random(9700 + seed)
+        for _ in range(1500 if thorough else 200):
+            yield gen_overlap_case(rnd)
+
+    def check_case(self, case, cfg):
+        import numpy as np
+        import warnings
+        from scipy.stats import t as tdist
+        from cr.cube.cube import Cube
+
+        warnings.simplefilter("ignore")
+        dims, rs, tr = case["dims"], case["rs"], case["transforms"]
+        rd, cd = dims
+        R, K = valid_elems(rd), cd["n"]
+        if not R:
+            return []
+        bad = set()
+        try:
+            p = Cube(overlap_response(dims, rs), transforms=copy.deepcopy(tr) or None, population=1000).partitions[0]
+            co = [int(i) for i in p.column_order()]
+            ro = [int(i) for i in p.row_order()]
+            valid_rs = [r for r in rs if not rd["cats"][r["a"][0]]["missing"]]
+            S = np.array([[sum(1 for r in valid_rs if r["a"][1][a] == SEL and r["a"][1][b] == SEL) for b in range(K)] for a in range(K)], dtype=float)
+            N = np.array([[sum(1 for r in valid_rs if r["a"][1][a] != MIS and r["a"][1][b] != MIS) for b in range(K)] for a in range(K)], dtype=float)
+            cnt = np.array([[sum(1 for r in valid_rs if r["a"][0] == i and r["a"][1][a] == SEL) for a in range(K)] for i in R], dtype=float)
+            with np.errstate(all="ignore"):
+                colp = cnt / cnt.sum(axis=0, keepdims=True)
+
+            def tp(a, b, row):
+                if a == b:
+                    return 0.0, 1.0
+                with np.errstate(all="ignore"):
+                    pa, pb, pab = S[a, a] / N[a, a], S[b, b] / N[b, b], S[a, b] / N[a, b]
+                    df = N[a, a] + N[b, b] - N[a, b]
+                    t = (colp[row, b] - colp[row, a]) / np.sqrt(1 / df * (pa * (1 - pa) + pb * (1 - pb) + 2 * pa * pb - 2 * pab))
+                    pv = 2 * (1 - tdist.cdf(abs(t), df - 2))
+                return float(t), float(pv)
+
+            alpha_cfg = (tr.get("pairwise_indices") or {}).get("alpha")
+            a1 = 0.05 if not alpha_cfg else (alpha_cfg if isinstance(alpha_cfg, float) else sorted(alpha_cfg[:2])[0])
+            only_larger = (tr.get("pairwise_indices") or {}).get("only_larger", True) is not False
+            idx = p.pairwise_indices
+            for c, a in enumerate(co):
+                gt = np.asarray(p.pairwise_significance_t_stats(c), dtype=float)
+                gp = np.asarray(p.pairwise_significance_p_vals(c), dtype=float)
+                for rr, row in enumerate(ro):
+                    exp_set = []
+                    skip = False
+                    for kpos, b in enumerate(co):
+                        et, ep = tp(a, b, row)
+                        if not close([gt[rr, kpos]], [et], 1e-6):
+                            bad.add("overlap-t")
+                        if b == a:
+                            if not close([gp[rr, kpos]], [1.0]):
+                                bad.add("overlap-p-self")
+                            continue
+                        if not close([gp[rr, kpos]], [ep], 1e-6):
+                            bad.add("overlap-p-other-items")
+                        if ep == ep and abs(ep - a1) < 1e-7:
+                            skip = True
+                        if ep < a1 and (not only_larger or et < 0):
+                            exp_set.append(kpos)
+                    got = tuple(int(x) for x in idx[rr][c])
+                    if c in got:
+                        bad.add("overlap-never-self")
+                    if not skip and tuple(k_ for k_ in got if k_ != c) != tuple(exp_set):
+                        bad.add("overlap-indices")
+        except Exception as e:
+            bad.add("overlap-exception:%s" % type(e).__name__)
+        return sorted(bad)
+
+
+REGISTRY.append(OverlapPairwiseEndToEnd())
